@@ -26,6 +26,8 @@ INDEX = {
    {"name": "VerifH02HistoryBTree", "common": {"max_depth": 2000}, "quick": {"bounds": {"steps": 2, "ops": 6, "keys": 2}}, "thorough": {"bounds": {"steps": 3, "ops": 6, "keys": 2}, "max_paths": 400000}},
    {"name": "VerifH02PointOpsSlice", "common": {"max_depth": 2000}, "quick": {"bounds": {"steps": 3, "ops": 2, "keys": 2}}, "thorough": {"bounds": {"steps": 4, "ops": 3, "keys": 2}}},
    {"name": "VerifH02PointOpsBTree", "common": {"max_depth": 2000}, "quick": {"bounds": {"steps": 3, "ops": 2, "keys": 2}}, "thorough": {"bounds": {"steps": 4, "ops": 3, "keys": 2}}},
+   {"name": "VerifH02CyclesSlice", "common": {"max_depth": 3000}, "quick": {"bounds": {"steps": 3, "ops": 3, "keys": 1}}, "thorough": {"bounds": {"steps": 3, "ops": 4, "keys": 2}}},
+   {"name": "VerifH02CyclesBTree", "common": {"max_depth": 3000}, "quick": {"bounds": {"steps": 3, "ops": 3, "keys": 1}}, "thorough": {"bounds": {"steps": 3, "ops": 4, "keys": 2}}},
  ]},
  "C03": {"package": "./roaring", "harnesses": [
    {"name": "VerifH03Isolation", "common": {"max_depth": 3000}, "quick": {"bounds": {"atyps": 1, "array": 2, "runs": 1, "words": 1, "bases": 1, "wordmask6": 1, "runlen": 2, "derivations": 7, "mutations": 5, "kinds": 1, "btyps": 1}}, "thorough": {"bounds": {"array": 2, "runs": 1, "words": 1, "bases": 1, "wordmask6": 1, "runlen": 2, "derivations": 7, "mutations": 7, "kinds": 2, "btyps": 2}, "max_paths": 600000}},
@@ -43,6 +45,8 @@ INDEX = {
    {"name": "VerifH06UnmarshalPilosa", "common": {"max_depth": 2000}, "quick": {"bounds": {"len": 20}}, "thorough": {"bounds": {"len": 32}}},
    {"name": "VerifH06ImportRoaringBits", "common": {"max_depth": 2000}, "quick": {"bounds": {"len": 12}}, "thorough": {"bounds": {"len": 20}}},
    {"name": "VerifH06OpUnmarshal", "common": {"max_depth": 2000}, "quick": {"bounds": {"len": 22}}, "thorough": {"bounds": {"len": 30}}},
+   {"name": "VerifH06HugeNumbers", "package": "./pql", "common": {"max_depth": 4000, "max_steps": 20000000}, "quick": {"bounds": {"digits": 400}}},
+   {"name": "VerifH06ParseArbitrary", "package": "./pql", "common": {"max_depth": 4000}, "quick": {"bounds": {"len": 2}}, "thorough": {"bounds": {"len": 3}}},
  ]},
  "C07": {"package": ".", "harnesses": [
    {"name": "VerifH07History", "common": {"max_depth": 2000}, "quick": {"bounds": {"steps": 2, "ops": 9, "rows": 2, "colhis": 1, "caches": 1}}, "thorough": {"bounds": {"steps": 2, "ops": 9, "rows": 3, "colhis": 2, "caches": 3}}},
